@@ -25,7 +25,8 @@ def from_data_contract():
         def ep_from_data(I2, a, k):
             if I2.branch_free():
                 ep = SOpaque(f"endpoint[{k['method']}]", cls=object, attrs={"errors": SList([mk_error()] if I2.branch_free() else []),
-                                                                             "method": k["method"], "path": k["path"], "tags": k["tags"]})
+                                                                             "method": k["method"], "path": k["path"], "tags": k["tags"],
+                                                                             "name": SStr(z3.Const(f"operation_name[{k['method']}]", z3.StringSort()))})
                 log.append(("built", k["method"], ep))
                 return STuple([ep, k["schemas"], k["parameters"]])
             err = mk_error()
@@ -77,6 +78,22 @@ def from_data_contract():
             inlist = [c for c in colls if ep is not None and any(e is ep for e in c.fields["endpoints"].items)]
             errs = [f[2] for f in failed]
             errlist = [c for c in colls if any(any(e is x for e in c.fields["parse_errors"].items) for x in errs)]
+            if not failed and ep is not None and not inlist:
+                # the operation was built but the function itself turned it down (its module name is taken): then a
+                # diagnostic made by the function, naming the operation, must be in every selected collection
+                known = [x[2] for x in log if x[0] == "failed"] + [w for x in log if x[0] == "built" for w in x[2].attrs["errors"].items]
+                def names_it(h):
+                    if isinstance(h, str):
+                        return f"{method.upper()} /p" in h and "will not be generated" in h
+                    if isinstance(h, SStr):
+                        return I.must(z3.And(z3.Contains(h.t, z3.StringVal(f"{method.upper()} /p")),
+                                             z3.Contains(h.t, z3.StringVal("will not be generated"))))
+                    return False
+                own = [e for c in colls for e in c.fields["parse_errors"].items
+                       if not any(e is k for k in known) and names_it(e.fields.get("header"))]
+                if not own:
+                    return False
+                continue
             if failed:
                 if inlist or not errlist:
                     return False
@@ -115,7 +132,28 @@ def from_data_contract():
             conds.append(z3.If(flag, z3.BoolVal(ntags == want_all and 1 <= n <= ntags), z3.BoolVal(ntags == 1 and n == 1)))
         return z3.And(*conds) if conds else True
 
+    def one_module(ctx):
+        """no collection holds two different endpoints whose PythonIdentifier(name) coincide"""
+        from openapi_python_client import utils
+        I = ctx.I
+        by_tag = ctx.value.items[0]
+        conds = []
+        for _, c in by_tag.entries:
+            eps = []
+            for e in c.fields["endpoints"].items:
+                if not any(e is x for x in eps):
+                    eps.append(e)
+            for i in range(len(eps)):
+                for j in range(i + 1, len(eps)):
+                    a = I.to_str_term(I.lib[utils.PythonIdentifier](I, [eps[i].attrs["name"], "field_"], {}))
+                    b = I.to_str_term(I.lib[utils.PythonIdentifier](I, [eps[j].attrs["name"], "field_"], {}))
+                    conds.append(a != b)
+        return z3.And(*conds) if conds else True
+
     clauses = [
+        Clause("one-endpoint-per-module", one_module,
+               statement="two different operations filed under one tag never have the same module name PythonIdentifier(name): the "
+                         "later one is reported instead of overwriting api/<tag>/<module>.py", props=["C09", "C01"]),
         Clause("per-operation-accounting", accounting,
                statement="each operation ends as an endpoint in every selected collection or as a ParseError (header naming "
                          "METHOD and path) in every selected collection -- exactly one of the two; warnings of a generated "
